@@ -19,6 +19,8 @@ func (p *Prog) Src(n ast.Node) string {
 
 func doDump(p *Prog, what string) {
 	switch {
+	case what == "alias":
+		dumpAlias(p)
 	case what == "funcs":
 		for _, f := range p.All {
 			fmt.Printf("%-70s %s\n", f.Name, p.Pos(f.Body))
@@ -59,5 +61,11 @@ func doDump(p *Prog, what string) {
 			fmt.Printf("%s  %s   in %s   val=%s\n", p.Pos(c.Call), c.Name, c.Fn.Name, p.Resolver(c.Fn).Val(c.Call))
 		}
 		_ = r
+	}
+}
+
+func dumpAlias(p *Prog) {
+	for _, a := range p.AliasingAppends() {
+		fmt.Printf("%s %s in %s: %s\n", p.Pos(a.Call), a.Field, a.Fn.Name, p.Src(a.Call))
 	}
 }
